@@ -102,6 +102,8 @@ func (l *c07LastLog) get() string {
 
 var c07LogSink = &c07LastLog{}
 
+var c07ObserveOnce sync.Once
+
 var c07Log = func() logging.Logger {
 	l := logging.NewLogger()
 	l.SetOutput(c07LogSink)
@@ -1032,6 +1034,27 @@ func c07FirstDiff(a, b string) string {
 // ---------------------------------------------------------------------------------------
 // part codec
 
+// c07Parallel runs independent streams on a few workers (stream s always uses its own PRNG streams, so the cases do
+// not depend on the schedule).
+func c07Parallel(n int, f func(s int)) {
+	var wg sync.WaitGroup
+	ch := make(chan int)
+	for w := 0; w < 8; w++ {
+		wg.Add(1)
+		go func() {
+			defer wg.Done()
+			for s := range ch {
+				f(s)
+			}
+		}()
+	}
+	for s := 0; s < n; s++ {
+		ch <- s
+	}
+	close(ch)
+	wg.Wait()
+}
+
 func c07CheckCodec(c *kit.Ctx, m *c07Machine, acts []action, where map[string]any) {
 	wit := func(msg string) map[string]any {
 		w := map[string]any{"message": msg, "player": fmt.Sprintf("%+v", struct {
@@ -1053,9 +1076,9 @@ func c07CheckCodec(c *kit.Ctx, m *c07Machine, acts []action, where map[string]an
 	if !bytes.Equal(encs[false], encs[true]) {
 		// Not demanded by the property (both decode to the same state, checked below): the msgp encoder orders
 		// map[proposalValue] entries by (period, proposer, digest, encoding digest), the reflection encoder by encoded key bytes.
-		if c.Counter("msgp_and_reflect_encodings_differ_bytewise") == 0 {
+		c07ObserveOnce.Do(func() {
 			c.Observation("encode(msgp) and encode(reflect) of the same state differ bytewise (not a restore defect; both are decoded and compared): %s", c07WhereEncodingsDiffer(encs[false], encs[true]))
-		}
+		})
 		c.Count("msgp_and_reflect_encodings_differ_bytewise", 1)
 	}
 	origDesc := kit.Describe(struct {
@@ -1168,8 +1191,11 @@ func TestVerifC07Codec(t *testing.T) {
 	defer c.Finish()
 	c.Rule("states = (router, player, pending actions) reached along PRNG-driven protocol-valid event streams (7 voters, 2 of them possibly equivocating, proposal-votes with payloads, pipelined payloads, bundles, timeouts, fast timeouts, round interruptions, checkpoints, verification replies, own votes looped back) into a real rootRouter+player; checked at every persist point (an attest action pending) and at PRNG-chosen other points: bytewise idempotence over msgp/reflection codec pairs and survival of every field outside the not-persisted list; distinct = distinct state-shape classes (period, step, napping, numbers of round/period/step routers, votes, equivocators, assemblers, pipelined payloads, pending tails, pending actions)")
 	c.Assume("votes are struct-level (chosen weights, filler signatures): player and router do not verify cryptography; the not-persisted list c07NotPersisted was established on the unchanged tree")
-	nstreams := c.N(24, 900)
-	for s := 0; s < nstreams && c.Violations() <= 20; s++ {
+	nstreams := c.N(24, 500)
+	c07Parallel(nstreams, func(s int) {
+		if c.Violations() > 20 {
+			return
+		}
 		none := &c07Restrict{}
 		c07Stream(c, 70, s, c.N(400, 600), func(m *c07Machine, acts []action, w *c07World, i int, trace []string) bool {
 			if !(persistent(acts) || w.r.Chance(1, 8)) {
@@ -1187,8 +1213,8 @@ func TestVerifC07Codec(t *testing.T) {
 			return true
 		}, func() *c07Restrict { return none }, nil)
 		c.Count("streams", 1)
-	}
-	c.Require("states", int64(c.N(1200, 50000)))
+	})
+	c.Require("states", int64(c.N(1200, 30000)))
 	c.Require("states_period_gt0", 100)
 	c.Require("states_with_equivocation_records", 100)
 	c.Require("states_with_pipelined_next_round", 100)
@@ -1218,12 +1244,15 @@ func TestVerifC07Behaviour(t *testing.T) {
 	defer c.Finish()
 	c.Rule("same streams as part codec (other PRNG stream); at persist points and PRNG-chosen points the state is encoded and restored twice (msgp decode, reflection decode); the restored machines then receive the next 5-80 events of the uncrashed machine's stream; after every event actions (type, ComparableStr, encoding) and the encoded state must equal the uncrashed machine's; distinct = distinct state-shape classes at the snapshot")
 	c.Assume("while a comparison runs the stream has no proposal-vote whose handling depends on the deliberately unpersisted late-credential state, and no verification reply to a request older than the snapshot; streams stay below 40 rounds (credential history never full)")
-	nstreams := c.N(50, 1200)
-	for s := 0; s < nstreams && c.Violations() <= 20; s++ {
+	nstreams := c.N(50, 900)
+	c07Parallel(nstreams, func(s int) {
+		if c.Violations() > 20 {
+			return
+		}
 		var cur *c07Compare
 		restrictNone := &c07Restrict{}
 		var lastEvent event
-		c07Stream(c, 71, s, c.N(500, 700), func(m *c07Machine, acts []action, w *c07World, i int, trace []string) bool {
+		c07Stream(c, 71, s, c.N(500, 600), func(m *c07Machine, acts []action, w *c07World, i int, trace []string) bool {
 			where := func(extra string) map[string]any {
 				wt := map[string]any{"stream": s, "event_index": i, "message": extra, "replay": fmt.Sprintf("VERIF_SEED=%d: stream %d is generated from c.Rand(71,%d)", c.Seed, s, s),
 					"last_events": append([]string(nil), trace...)}
@@ -1316,10 +1345,10 @@ func TestVerifC07Behaviour(t *testing.T) {
 			return restrictNone
 		}, func(e event, desc string, acts []action, i int) { lastEvent = e })
 		c.Count("streams", 1)
-	}
-	c.Require("snapshots", int64(c.N(400, 10000)))
-	c.Require("events_compared", int64(c.N(10000, 250000)))
-	c.Require("continuations_completed", int64(c.N(300, 8000)))
+	})
+	c.Require("snapshots", int64(c.N(400, 8000)))
+	c.Require("events_compared", int64(c.N(10000, 200000)))
+	c.Require("continuations_completed", int64(c.N(300, 6000)))
 	c.Require("states_period_gt0", 30)
 	c.Require("states_with_equivocation_records", 30)
 	c.Require("states_with_pipelined_next_round", 30)
